@@ -742,6 +742,173 @@ theorem context_clause_partial {Expr Res : Type} (stmtOf : Expr → Stmt Res) (h
 /-- non-vacuity of `C09_full`: the one-expression evaluator `exStmt` satisfies it -/
 example : C09_full (fun (_ : Unit) => exStmt) := fun _ => ⟨exStmt_local, exStmt_disciplined⟩
 
+/-! ## the `YaqlInterface` call as a host step
+
+`yi = YaqlInterface(host_context, engine)` built by the host; `yi(expression, *args, **kwargs)` =
+`Effects.interfaceCall`: private child, parameters published there, evaluation without data on the child, child
+dropped.  The wrapped chain is left exactly as it was - not even `$` moves (the `$` exemption of `only_dollar`
+is not needed: the first positional parameter lands in the child's `$1`). -/
+
+theorem publish_length (ch : Shape) : ∀ (ps : List (Name × Val)) (cs : Cells),
+    (publish cs ch ps).length = cs.length
+  | [], _ => rfl
+  | (n, v) :: r, cs => by simp only [publish]; rw [publish_length ch r, setData_length]
+
+theorem publish_local (ch : Shape) (c' : Nat) (h : writeCell ch ≠ some c') :
+    ∀ (ps : List (Name × Val)) (cs : Cells), (publish cs ch ps).get c' = cs.get c'
+  | [], _ => rfl
+  | (n, v) :: r, cs => by simp only [publish]; rw [publish_local ch c' h r, write_local _ _ _ _ _ h]
+
+/-- the private frame of a call: a plain child owning the next free cell; every older cell as before -/
+theorem interfaceFrame_spec (cs : Cells) (s : Shape) (ps : List (Name × Val)) (cs1 : Cells) (ch : Shape)
+    (h : interfaceFrame cs s ps = some (cs1, ch)) :
+    (∃ pp, ch = .plain cs.length pp) ∧ cs1.length = cs.length + 1 ∧ ∀ c < cs.length, cs1.get c = cs.get c := by
+  unfold interfaceFrame at h
+  split at h
+  · cases h
+  · rename_i c b hc
+    simp only [Option.some.injEq, Prod.mk.injEq] at h
+    obtain ⟨h1, h2⟩ := h
+    subst h2
+    obtain ⟨pp, rfl⟩ := createChild_plain _ _ _ _ hc
+    subst h1
+    refine ⟨⟨pp, rfl⟩, by rw [publish_length]; simp, ?_⟩
+    intro k hk
+    rw [publish_local _ k (by simp only [writeCell, ne_eq, Option.some.injEq]; omega), get_append_empty]
+
+/-- one interface call (disciplined evaluator): the store only grows, every cell that existed is unchanged -/
+theorem interface_call_frame1 (cs : Cells) (s : Shape) (c : ICall) (hd : NoHostWrite c.body) :
+    cs.length ≤ (interfaceCall cs s c).length ∧
+    ∀ k < cs.length, (interfaceCall cs s c).get k = cs.get k := by
+  unfold interfaceCall
+  cases h : interfaceFrame cs s c.params with
+  | none => exact ⟨Nat.le_refl _, fun _ _ => rfl⟩
+  | some p =>
+      obtain ⟨cs1, ch⟩ := p
+      obtain ⟨_, hl, hk⟩ := interfaceFrame_spec cs s c.params cs1 ch h
+      obtain ⟨g1, _, g3, _⟩ := only_dollar cs1 ch none c.fin c.body hd
+      refine ⟨by simp only; omega, ?_⟩
+      intro k hlt
+      simp only
+      rw [g3 rfl k (by omega), hk k hlt]
+
+/-- **C09.interface_call_frame** (all stores, all wrapped contexts - plain, multi, linked, any chain -, any
+    number of calls, any parameters, all disciplined evaluator runs): after any sequence of
+    `yi(expression, *args, **kwargs)` calls through an interface the host built around its context, every
+    cell that existed before - the wrapped context's, its parents', members', link targets', and everybody
+    else's - is exactly what it was: no parameter of any call was left behind, nothing was registered,
+    `$` of the wrapped context did not move either. -/
+theorem interface_call_frame (s : Shape) : ∀ (calls : List ICall) (cs : Cells),
+    (∀ c ∈ calls, NoHostWrite c.body) →
+    cs.length ≤ (interfaceCalls cs s calls).length ∧
+    ∀ k < cs.length, (interfaceCalls cs s calls).get k = cs.get k
+  | [], _, _ => ⟨Nat.le_refl _, fun _ _ => rfl⟩
+  | c :: r, cs, hd => by
+      obtain ⟨a1, a2⟩ := interface_call_frame1 cs s c (hd c (by simp))
+      obtain ⟨b1, b2⟩ := interface_call_frame s r (interfaceCall cs s c) (fun c' hm => hd c' (by simp [hm]))
+      refine ⟨by simp only [interfaceCalls]; omega, ?_⟩
+      intro k hk
+      simp only [interfaceCalls]
+      rw [b2 k (by omega), a2 k hk]
+
+/-- ... seen through the context API from any context `t` of the host's forest: EVERY variable (also `$`)
+    reads as before, every function name resolves as before -/
+theorem interface_call_reads (cs : Cells) (s : Shape) (calls : List ICall)
+    (hd : ∀ c ∈ calls, NoHostWrite c.body) (t : Shape) (ht : ∀ c ∈ cellsOf t, c < cs.length) :
+    (∀ name, getData (interfaceCalls cs s calls) t name = getData cs t name ∧
+      containsName (interfaceCalls cs s calls) t name = containsName cs t name) ∧
+    (∀ f, collectFunctions (interfaceCalls cs s calls) t f = collectFunctions cs t f) ∧
+    (∀ f, getFunctions (interfaceCalls cs s calls) f t = getFunctions cs f t) := by
+  obtain ⟨_, hk⟩ := interface_call_frame s calls cs hd
+  have hc : ∀ c ∈ cellsOf t, (interfaceCalls cs s calls).get c = cs.get c := fun c hm => hk c (ht c hm)
+  refine ⟨fun name => ⟨?_, ?_⟩, fun f => ?_, fun f => ?_⟩
+  · unfold getData
+    rw [walkParents_congr _ cs (normName name) (some t) (fun c hm => by
+      rw [hc c (by simpa [cellsOfO] using hm)])]
+  · unfold containsName
+    rw [contains_congr _ cs (normName name) t (fun c hm => by rw [hc c hm])]
+  · unfold collectFunctions
+    rw [collectFrom_congr _ cs _ (some t) (fun c hm => by
+      rw [hc c (by simpa [cellsOfO] using hm)]; exact ⟨rfl, rfl⟩)]
+  · rw [getFunctions_congr _ cs f t (fun c hm => by rw [hc c hm]; exact ⟨rfl, rfl⟩)]
+
+theorem interfaceCalls_hostEq (cs : Cells) (s : Shape) (calls : List ICall)
+    (hd : ∀ c ∈ calls, NoHostWrite c.body) : HostEq cs s (interfaceCalls cs s calls) := by
+  obtain ⟨hl, hk⟩ := interface_call_frame s calls cs hd
+  refine ⟨hl, ?_⟩
+  intro v c hc
+  cases hw : writeCell s with
+  | none =>
+      have e : ∀ (Y : Cells), setData Y s dollar v = Y := fun Y => by simp [setData, hw]
+      rw [e, e, hk c hc]
+  | some w =>
+      by_cases hcw : c = w
+      · subst hcw
+        rw [setData_get_eq _ _ _ _ _ hw (by omega), setData_get_eq _ _ _ _ _ hw hc, hk c hc]
+      · have hne : writeCell s ≠ some c := by rw [hw]; intro e; exact hcw (Option.some.inj e).symm
+        rw [write_local _ _ _ _ _ hne, write_local _ _ _ _ _ hne, hk c hc]
+
+/-- **C09.interface_history_independent**: whatever was evaluated through the interface before (any calls, any
+    parameters), a pool of statements evaluated afterwards against the wrapped context - `engine(text).evaluate(
+    data, context=host_context)` - returns what it returns on the store the host prepared: the parameters of
+    earlier interface calls are not visible to it (a name reads as null unless the host bound it). -/
+theorem interface_history_independent {Res : Type} (cs : Cells) (s : Shape)
+    (hs : ∀ c ∈ cellsOf s, c < cs.length) (calls : List ICall) (hd : ∀ c ∈ calls, NoHostWrite c.body)
+    (pool : List (Stmt Res × Val)) (hp : ∀ p ∈ pool, p.1.Local ∧ p.1.Disciplined) :
+    (runPool s (interfaceCalls cs s calls) pool).2 = pool.map fun p => (evalStmt cs s p.1 p.2).2 :=
+  runPool_results cs s hs pool _ (interfaceCalls_hostEq cs s calls hd) hp
+
+/-- a later call through the interface reads, in its own fresh frame, exactly the names IT published, and every
+    other name as the wrapped context had it before all calls -/
+theorem interface_probe_reads (cs : Cells) (s : Shape) (calls : List ICall)
+    (hd : ∀ c ∈ calls, NoHostWrite c.body) (hs : ∀ c ∈ cellsOf s, c < cs.length)
+    (cs1 : Cells) (ch : Shape) (h : interfaceFrame (interfaceCalls cs s calls) s [] = some (cs1, ch))
+    (name : Name) : getData cs1 ch name = getData cs s name := by
+  obtain ⟨hl, hk⟩ := interface_call_frame s calls cs hd
+  unfold interfaceFrame at h
+  split at h
+  · cases h
+  · rename_i c b hc
+    simp only [publish, Option.some.injEq, Prod.mk.injEq] at h
+    obtain ⟨h1, h2⟩ := h
+    subst h2; subst h1
+    have hpl := createChild_plain _ _ _ _ hc
+    obtain ⟨pp, hpp⟩ := hpl
+    have hpar : pp = some s := by
+      cases s with
+      | plain c' p => simp only [createChild, ChildResult.ok.injEq] at hc; rw [← hc.1] at hpp; cases hpp; rfl
+      | multi ms p => simp only [createChild, ChildResult.ok.injEq] at hc; rw [← hc.1] at hpp; cases hpp; rfl
+      | linked t p =>
+          cases t with
+          | plain c' p' => simp only [createChild, ChildResult.ok.injEq] at hc; rw [← hc.1] at hpp; cases hpp; rfl
+          | multi ms p' => simp [createChild] at hc
+          | linked t' p' => simp [createChild] at hc
+    subst hpp; subst hpar
+    unfold getData
+    simp only [walkParents, walk]
+    have hempty : ((interfaceCalls cs s calls ++ [({} : Cell)]).get (interfaceCalls cs s calls).length).data = [] := by
+      unfold Cells.get
+      simp [List.getD_eq_getElem?_getD]
+    rw [hempty]
+    simp only [alookup]
+    have := walkParents_congr (interfaceCalls cs s calls ++ [({} : Cell)]) cs (normName name) (some s)
+      (fun c hm => by rw [get_append_empty, hk c (hs c (by simpa [cellsOfO] using hm))])
+    simpa [walkParents] using congrArg (fun o => Option.getD o none) this
+
+/-! non-vacuity: a call with two parameters and a `let`-like body on a two-context chain leaves both host cells
+    as they were and two garbage cells behind; publishing into the wrapped context instead changes the host's cell -/
+example :
+    let cs : Cells := [{ data := [(['$', 'y'], some 1)] }, { funcs := [(finalizeName, 0)] }]
+    let s : Shape := .plain 0 (some (.plain 1 none))
+    let call : ICall := ⟨[(['$', '1'], some 4), (['$', '2'], some 5), (['$', 'k'], some 6)], 9,
+                         [.child 0, .set 1 ['x'] (some 3)]⟩
+    ((interfaceCalls cs s [call, call]).take 2 = cs) ∧ (interfaceCalls cs s [call, call]).length = 6 ∧
+    ((interfaceCall cs s call).get 2).data = [(['$', '1'], some 4), (['$', '2'], some 5), (['$', 'k'], some 6)] ∧
+    ((interfaceCallLeaky cs s call).get 0).data =
+      [(['$', 'y'], some 1), (['$', '1'], some 4), (['$', '2'], some 5), (['$', 'k'], some 6)] ∧
+    getData (interfaceCallLeaky cs s call) s ['k'] = some 6 ∧ getData (interfaceCall cs s call) s ['k'] = none := by
+  decide
+
 /-! ### instantiation with the evaluator model (`Model/Eval.lean`, builder C04)
 
 CONNECTED in `Props/C09Eval.lean` (after the merge of C04's branch): C04's evaluator works on immutable frame
